@@ -178,7 +178,7 @@ def nullOracle : Oracle Unit where
 theorem nullOracle_ok : OracleOk nullOracle :=
   ⟨fun _ _ => by show ([] : List Nat).length ≤ _; simp,
    fun _ a => ⟨Nat.zero_le _, by show IResult.Stop ≠ IResult.FatalExternalError; decide,
-     by show ([] : List Nat).length ≤ _; simp⟩⟩
+     by show ([] : List Nat).length ≤ _; simp, fun _ _ h => by cases h⟩⟩
 
 /-- `PUSH1 1; PUSH1 2; ADD; PUSH32` cut off after one byte, Cancun, 100000 gas, default environment -/
 example : Admissible [0x60, 0x01, 0x60, 0x02, 0x01, 0x7f, 0xaa] [0xde, 0xad] 100000 17 {} Memory.new :=
@@ -219,18 +219,22 @@ theorem opcode_gate_matches_table (spec : Nat) (codes : List Nat) (h : (spec, co
 
 /-! ## EOF -/
 
-/-- in legacy code every EOF-only opcode stops the frame (`EOFOpcodeDisabledInLegacy`; RETURNCONTRACT:
-`ReturnContractInNotInitEOF`) — part of the legacy statement above; shown separately because it is all this file
-says about the EOF instruction set -/
-theorem eof_opcodes_stop_in_legacy_partial (s : IState) (h1 : s.isEof = false) (h2 : s.isEofInit = false) :
-    execInstr .eofOnly s = .halt .EOFOpcodeDisabledInLegacy [] s
+/-- in legacy code every EOF-only opcode stops the frame at its `require_eof!` (`EOFOpcodeDisabledInLegacy`;
+RETURNCONTRACT at `require_init_eof!`: `ReturnContractInNotInitEOF`) — part of the legacy statement above, shown
+separately for the instructions without a host question -/
+theorem eof_opcodes_stop_in_legacy (s : IState) (h1 : s.isEof = false) (h2 : s.isEofInit = false) :
+    (∀ i ∈ [Instr.rjump, .rjumpi, .rjumpv, .callf, .retf, .jumpf, .dupn, .swapn, .exchange, .dataload, .dataloadn,
+        .datasize, .datacopy, .returndataload], execInstr i s = .halt .EOFOpcodeDisabledInLegacy [] s)
     ∧ execInstr .returnContract s = .halt .ReturnContractInNotInitEOF [] s := by
+  have hg : ∀ (k : Unit → M Unit), Outcome.pure (Exec.toDone (M.bind requireEof k s))
+      = .halt .EOFOpcodeDisabledInLegacy [] s := by
+    intro k; unfold M.bind requireEof; rw [h1]; rfl
   constructor
-  · show Outcome.pure (Exec.toDone ((do requireEof; faultWith Fault.notModelled : M Unit) s)) = _
-    show Outcome.pure (Exec.toDone (M.bind requireEof (fun _ => faultWith Fault.notModelled) s)) = _
-    unfold M.bind requireEof
-    rw [h1]; rfl
-  · show Outcome.pure (Exec.toDone (if !s.isEofInit then _ else _)) = _
+  · intro i hi
+    simp only [List.mem_cons, List.mem_nil_iff, or_false] at hi
+    rcases hi with rfl | rfl | rfl | rfl | rfl | rfl | rfl | rfl | rfl | rfl | rfl | rfl | rfl | rfl <;> exact hg _
+  · show Outcome.pure (Exec.toDone (M.bind requireInitEof _ s)) = _
+    unfold M.bind requireInitEof
     rw [h2]; rfl
 
 /-- The part of C25 about EOF that is NOT proved. The model runs EOF containers (`IState.initEof`: code sections,
